@@ -532,3 +532,10 @@ Definition run_policy_case (ops : list op) (sts : list (N * N * list N))
   | PPanic => VL [VI (-1)%Z]
   | POk vs => VL [VL [v_slot (sl_import s); v_slot (sl_export s); v_slot (sl_peer s)]; VList VB oks; VL vs]
   end.
+
+(* ---- the API annotation (daemon/src/table_manager.rs TableManager::collect_paths, phase 2):
+     for dest in &mut out { for path in &mut dest.paths {
+         path.validation = rpki.validate(&path.source, &dest.net, &path.attr); } }
+   every path of a destination is validated on its own source (local AS) and attributes *)
+Definition annotate (t : rtab) (n : net) (paths : list (N * list (N * list N))) : list (pres (option vres)) :=
+  map (fun p => validate t (fst p) n (snd p)) paths.
